@@ -1,3 +1,300 @@
-//! C07 (stub: no cases yet)
+//! C07 — chars / char_indices (all front/back histories), encode_utf8, from_u32 vs std;
+//! also ties the Gallina UTF-8 spec (validity, decoder, encoder) to the real std.
+use crate::c03::{catch_blame, rand_string};
 use crate::common::*;
-pub fn run(_cfg: &Cfg, _out: &mut Out) {}
+use konst::{chr as kc, string as ks};
+
+fn hexn(b: &[u8]) -> String {
+    let mut s = String::with_capacity(2 * b.len());
+    for x in b {
+        s.push_str(&format!("{:02x}", x));
+    }
+    s
+}
+
+// ------------------------------------------------------------------ blocks of 256 code points
+
+fn block(out: &mut Out, start: u32) {
+    let ns: Vec<u32> = (start..start + 256).collect();
+    // from_u32: deviations from Some(n)
+    let fu_i: Vec<String> = ns.iter().filter_map(|&n| match kc::from_u32(n) {
+        Some(c) if c as u32 == n => None,
+        Some(c) => Some(format!("{:x}:{:x}", n, c as u32)),
+        None => Some(format!("{:x}:N", n)),
+    }).collect();
+    let fu_s: Vec<String> = ns.iter().filter_map(|&n| match char::from_u32(n) {
+        Some(c) if c as u32 == n => None,
+        Some(c) => Some(format!("{:x}:{:x}", n, c as u32)),
+        None => Some(format!("{:x}:N", n)),
+    }).collect();
+    // encode_utf8
+    let enc_i: Vec<String> = ns.iter().map(|&n| match char::from_u32(n) {
+        Some(c) => catch_blame(move || {
+            let e = kc::encode_utf8(c);
+            let mut r = hexn(e.as_bytes());
+            if e.as_str().as_bytes() != e.as_bytes() {
+                r.push('!');
+            }
+            r
+        }),
+        None => "-".to_string(),
+    }).collect();
+    let enc_s: Vec<String> = ns.iter().map(|&n| match char::from_u32(n) {
+        Some(c) => hexn(c.encode_utf8(&mut [0u8; 4]).as_bytes()),
+        None => "-".to_string(),
+    }).collect();
+    // decoding of the one-char string through chars().next() / next_back()
+    let dec = |back: bool, konst: bool| -> Vec<String> {
+        ns.iter().filter_map(|&n| {
+            let c = char::from_u32(n)?;
+            let mut buf = [0u8; 4];
+            let s: &str = c.encode_utf8(&mut buf);
+            let r = if konst {
+                catch_blame(|| {
+                    let it = ks::chars(s);
+                    match if back { it.next_back() } else { it.next() } {
+                        Some((ch, rest)) => format!("{:x}+{}", ch as u32, rest.as_str().len()),
+                        None => "N".to_string(),
+                    }
+                })
+            } else {
+                let mut it = s.chars();
+                match if back { it.next_back() } else { it.next() } {
+                    Some(ch) => format!("{:x}+{}", ch as u32, it.as_str().len()),
+                    None => "N".to_string(),
+                }
+            };
+            if r == format!("{:x}+0", n) { None } else { Some(format!("{:x}:{}", n, r)) }
+        }).collect()
+    };
+    let imp = fields(&[("fu", fu_i.join(",")), ("enc", enc_i.join(",")), ("dec", dec(false, true).join(",")), ("decb", dec(true, true).join(","))]);
+    let st = fields(&[("fu", fu_s.join(",")), ("enc", enc_s.join(",")), ("dec", dec(false, false).join(",")), ("decb", dec(true, false).join(","))]);
+    let nsc = ns.iter().filter(|&&n| char::from_u32(n).is_some()).count();
+    let tag = if nsc == 256 { "scalar" } else if nsc == 0 { "nonscalar" } else { "edge" };
+    out.line("c07.cp", &start.to_string(), &imp, &st, tag);
+    // Spec.encode (Table 3-6 by arithmetic) against the real std; impl column = konst again
+    out.line("c07.specenc", &start.to_string(), &enc_i.join(",").replace('!', ""), &enc_s.join(","), tag);
+}
+
+fn one_fu(out: &mut Out, n: u32) {
+    let f = |o: Option<char>| show_opt(o, |c| format!("{:x}", c as u32));
+    out.line("c07.fu", &n.to_string(), &f(kc::from_u32(n)), &f(char::from_u32(n)), if char::from_u32(n).is_some() { "scalar" } else { "nonscalar" });
+}
+
+// ------------------------------------------------------------------ iterator histories
+
+macro_rules! konst_hist {
+    ($s:expr, $h:expr, $init:expr, $asstr:expr, $show:expr) => {{
+        let s: &str = $s;
+        let h: &[u8] = $h;
+        catch_blame(move || {
+            let mut it = $init(s);
+            let mut v: Vec<String> = Vec::new();
+            for e in h {
+                let r = if *e == b'F' { it.copy().next() } else { it.copy().next_back() };
+                match r {
+                    Some((x, ni)) => {
+                        it = ni;
+                        v.push(format!("S({})@{}", $show(x), view_str(s, $asstr(&it))));
+                    }
+                    None => v.push(format!("N@{}", view_str(s, $asstr(&it)))),
+                }
+            }
+            format!("[{}]", v.join(","))
+        })
+    }};
+}
+
+/// std side: `it` is the real std iterator (or its Rev); the remaining-string view is
+/// `as_str()` for the forward forms and is recomputed from the widths of the chars taken
+/// for the reversed forms (Rev has no as_str).
+fn std_hist<I, T>(s: &str, h: &[u8], mut it: I, reversed: bool, ch: impl Fn(&T) -> char, show: impl Fn(&T) -> String) -> String
+where
+    I: DoubleEndedIterator<Item = T>,
+{
+    let (mut lo, mut hi) = (0usize, s.len());
+    let mut v: Vec<String> = Vec::new();
+    for e in h {
+        let front = *e == b'F';
+        let r = if front { it.next() } else { it.next_back() };
+        match r {
+            Some(x) => {
+                let w = ch(&x).len_utf8();
+                if front != reversed { lo += w } else { hi -= w }
+                v.push(format!("S({})@{}", show(&x), view_str(s, &s[lo..hi])));
+            }
+            None => v.push(format!("N@{}", view_str(s, &s[lo..hi]))),
+        }
+    }
+    format!("[{}]", v.join(","))
+}
+
+fn as_c<'a>(it: &ks::Chars<'a>) -> &'a str { it.as_str() }
+fn as_rc<'a>(it: &ks::RChars<'a>) -> &'a str { it.copy().rev().as_str() }
+fn as_i<'a>(it: &ks::CharIndices<'a>) -> &'a str { it.as_str() }
+fn as_ri<'a>(it: &ks::RCharIndices<'a>) -> &'a str { it.copy().rev().as_str() }
+
+fn one_iter(out: &mut Out, s: &str, h: &[u8]) {
+    let args = format!("{} {}", hex(s.as_bytes()), std::str::from_utf8(h).unwrap());
+    let sc = |c: char| format!("{:x}", c as u32);
+    let si = |p: (usize, char)| format!("{}:{:x}", p.0, p.1 as u32);
+    let imp = fields(&[
+        ("chars", konst_hist!(s, h, ks::chars, as_c, sc)),
+        ("rchars", konst_hist!(s, h, |s| ks::chars(s).rev(), as_rc, sc)),
+        ("ci", konst_hist!(s, h, ks::char_indices, as_i, si)),
+        ("rci", konst_hist!(s, h, |s| ks::char_indices(s).rev(), as_ri, si)),
+    ]);
+    // forward forms: also check the real as_str() against the recomputed view
+    let fwd_chars = {
+        let mut it = s.chars();
+        let mut v: Vec<String> = Vec::new();
+        for e in h {
+            let r = if *e == b'F' { it.next() } else { it.next_back() };
+            match r {
+                Some(c) => v.push(format!("S({:x})@{}", c as u32, view_str(s, it.as_str()))),
+                None => v.push(format!("N@{}", view_str(s, it.as_str()))),
+            }
+        }
+        format!("[{}]", v.join(","))
+    };
+    let fwd_ci = {
+        let mut it = s.char_indices();
+        let mut v: Vec<String> = Vec::new();
+        for e in h {
+            let r = if *e == b'F' { it.next() } else { it.next_back() };
+            match r {
+                Some((o, c)) => v.push(format!("S({}:{:x})@{}", o, c as u32, view_str(s, it.as_str()))),
+                None => v.push(format!("N@{}", view_str(s, it.as_str()))),
+            }
+        }
+        format!("[{}]", v.join(","))
+    };
+    let st = fields(&[
+        ("chars", fwd_chars),
+        ("rchars", std_hist(s, h, s.chars().rev(), true, |c: &char| *c, |c: &char| format!("{:x}", *c as u32))),
+        ("ci", fwd_ci),
+        ("rci", std_hist(s, h, s.char_indices().rev(), true, |p: &(usize, char)| p.1, |p: &(usize, char)| format!("{}:{:x}", p.0, p.1 as u32))),
+    ]);
+    let mixed = h.contains(&b'F') && h.contains(&b'B');
+    let tag = match (s.is_ascii(), mixed) {
+        (true, _) => "-",
+        (false, true) => "multibyte+mixed",
+        (false, false) => "multibyte",
+    };
+    out.line("c07.iter", &args, &imp, &st, tag);
+}
+
+fn all_hist(n: usize) -> Vec<Vec<u8>> {
+    all_seqs(&[b'F', b'B'], n).into_iter().filter(|h| h.len() == n).collect()
+}
+
+// ------------------------------------------------------------------ Spec.Utf8 vs std
+
+fn one_utf8(out: &mut Out, b: &[u8]) {
+    let render = |ok: bool, chars: Vec<char>, ci: Vec<(usize, char)>| -> String {
+        if !ok {
+            return "utf8=F".to_string();
+        }
+        fields(&[
+            ("utf8", "T".to_string()),
+            ("chars", show_list(chars, |c| format!("{:x}", c as u32))),
+            ("ci", show_list(ci, |(o, c)| format!("{}:{:x}", o, c as u32))),
+        ])
+    };
+    let st = match std::str::from_utf8(b) {
+        Ok(s) => render(true, s.chars().collect(), s.char_indices().collect()),
+        Err(_) => render(false, vec![], vec![]),
+    };
+    let bb = b.to_vec();
+    let imp = catch_blame(move || match ks::from_utf8(&bb) {
+        Ok(s) => {
+            let mut cs = Vec::new();
+            let mut it = ks::chars(s);
+            while let Some((c, ni)) = it.copy().next() {
+                cs.push(c);
+                it = ni;
+            }
+            let mut ci = Vec::new();
+            let mut it = ks::char_indices(s);
+            while let Some((p, ni)) = it.copy().next() {
+                ci.push(p);
+                it = ni;
+            }
+            render(true, cs, ci)
+        }
+        Err(_) => render(false, vec![], vec![]),
+    });
+    let tag = if b.is_ascii() { "-" } else if st == "utf8=F" { "invalid" } else { "valid-multibyte" };
+    out.line("c07.utf8", &hex(b), &imp, &st, tag);
+}
+
+pub fn run(cfg: &Cfg, out: &mut Out) {
+    // every u32 below 0x120000, 256 per line, plus boundary values
+    let mut start = 0u32;
+    while start < 0x120000 {
+        block(out, start);
+        start += 256;
+    }
+    for n in [0u32, 0x7F, 0x80, 0x7FF, 0x800, 0xD7FF, 0xD800, 0xDBFF, 0xDC00, 0xDFFF, 0xE000, 0xFFFF, 0x10000, 0x10FFFF, 0x110000,
+              0x120000, 0xFFFFFF, 1 << 31, (1 << 31) + 0x41, u32::MAX - 1, u32::MAX] {
+        one_fu(out, n);
+    }
+    // every string over one char of each UTF-8 length x every front/back history that
+    // runs one step past exhaustion
+    let alpha = ['a', 'é', '锈', '🧠'];
+    let maxc = if cfg.thorough { 5 } else { 4 };
+    for s in all_strings(&alpha, maxc) {
+        let k = s.chars().count();
+        for h in all_hist(k + 1) {
+            one_iter(out, &s, &h);
+        }
+    }
+    // edge characters of every Table 3-7 row, in pairs
+    let edge: Vec<char> = [0u32, 0x7F, 0x80, 0x7FF, 0x800, 0xFFF, 0x1000, 0xCFFF, 0xD000, 0xD7FF, 0xE000, 0xFFFF, 0x10000, 0x3FFFF,
+                           0x40000, 0xFFFFF, 0x100000, 0x10FFFF].iter().map(|&n| char::from_u32(n).unwrap()).collect();
+    for &a in &edge {
+        for &b in &edge {
+            let s: String = [a, b].iter().collect();
+            for h in all_hist(3) {
+                one_iter(out, &s, &h);
+            }
+        }
+    }
+    // validity / decoding of arbitrary byte strings: Table 3-7 row edges as the alphabet
+    let balpha: [u8; 21] = [0x00, 0x41, 0x7F, 0x80, 0x8F, 0x90, 0x9F, 0xA0, 0xBF, 0xC0, 0xC1, 0xC2, 0xDF, 0xE0, 0xE1, 0xED, 0xEE, 0xEF, 0xF0, 0xF4, 0xF5];
+    for b in all_seqs(&balpha, if cfg.thorough { 4 } else { 3 }) {
+        one_utf8(out, &b);
+    }
+    let second: [u8; 8] = [0x7F, 0x80, 0x8F, 0x90, 0x9F, 0xA0, 0xBF, 0xC0];
+    for lead in [0xE0u8, 0xE1, 0xEC, 0xED, 0xEE, 0xEF, 0xF0, 0xF1, 0xF3, 0xF4, 0xF5, 0xF7, 0xF8, 0xFF] {
+        for b1 in second {
+            for b2 in [0x7Fu8, 0x80, 0xBF, 0xC0] {
+                for b3 in [0x7Fu8, 0x80, 0xBF, 0xC0, 0x41] {
+                    one_utf8(out, &[lead, b1, b2, b3]);
+                    one_utf8(out, &[0x41, lead, b1, b2, b3, 0xC3, 0xA9]);
+                }
+            }
+        }
+    }
+    // seeded random: longer strings of arbitrary scalar values, random histories
+    let mut rng = Rng::new(cfg.seed ^ 0xC07);
+    let count = if cfg.thorough { 30000 } else { 3000 };
+    for _ in 0..count {
+        let s = rand_string(&mut rng, 10);
+        let k = s.chars().count();
+        let h: Vec<u8> = (0..k + 2).map(|_| if rng.below(2) == 0 { b'F' } else { b'B' }).collect();
+        one_iter(out, &s, &h);
+        one_utf8(out, s.as_bytes());
+        // and a corrupted copy
+        let mut b = s.as_bytes().to_vec();
+        if !b.is_empty() {
+            let i = rng.below(b.len() as u64) as usize;
+            match rng.below(3) {
+                0 => b[i] ^= 0x80,
+                1 => { b.remove(i); }
+                _ => b[i] = *rng.pick(&balpha),
+            }
+            one_utf8(out, &b);
+        }
+    }
+}
